@@ -40,6 +40,11 @@ pub enum Ins {
     Fail,
     Run(usize),
     Chk(usize),
+    NextMaybe,
+    PeekMaybe(char),
+    SpanSince,
+    State,
+    Ctx,
 }
 
 #[derive(Clone, Debug)]
@@ -280,6 +285,11 @@ impl G {
                         "f" => Ins::Fail,
                         "sub" => Ins::Run(i[1].as_u64().unwrap_or(1) as usize),
                         "chk" => Ins::Chk(i[1].as_u64().unwrap_or(1) as usize),
+                        "nm" => Ins::NextMaybe,
+                        "pm" => Ins::PeekMaybe(tok_to_char(i[1].as_str().unwrap_or(""))),
+                        "ss" => Ins::SpanSince,
+                        "st" => Ins::State,
+                        "cx" => Ins::Ctx,
                         x => return Err(format!("unknown prog instruction {x}")),
                     });
                 }
